@@ -1,6 +1,7 @@
 import FqModel.Cli
 import Proofs.C17Parse
 import Proofs.C17Loop
+import Proofs.C17Opts
 /-!
   C17 — command line contract: property theorems about the model FqModel/Cli.lean
   (`argsParse` = args.jq `_args_parse`, `exitCode` = the `_fatal_error`/`_finally` mapping,
@@ -34,9 +35,20 @@ import Proofs.C17Loop
                                        the default mode feeds one by one
                `raw_input_lines`, `raw_input_lossless`, `raw_input_agrees_with_jq` (full);
                `raw_input_old_empty_witness`   documentation: before commit c7862ea9 an empty input was one empty line
+   options     `repeated_value_flag_later_wins`, `value_flags_commute`, `value_flag_bool_flag_commute`   -d a … -d b: later wins
+               `array_flag_accumulates`, `pairs_flag_accumulates`   -L and the named-argument flags keep every occurrence, in order
+               `option_flag_later_wins`, `option_flags_commute`     -o k=v1 … -o k=v2: later wins; different keys commute
+               `merge_lookup`, `option_beats_flag`, `flag_beats_default`   derived value > -o > dedicated flag > default, by the
+                                       operands of `+` in init.jq:189-193, not by position on the command line
+               `conv_true`, `flag_eq_option_partial`   -o name=true is the dedicated flag, for every boolean entry of the table
+                                       (partial: at the level of parse results, see the theorem)
+               `mistyped_option_dropped`   -o slurp=yes is ignored without a message (modelled as is)
+   positionals `from_file_positionals_are_files`, `first_positional_is_program`, `repl_without_files_is_null_input`
+   short-circuit `arg_error_before_help`, `opt_eval_error_before_help`, `help_short_circuit`, `version_short_circuit`
+   named args  `named_arg_later_wins`, `named_arg_kind_precedence`, `decode_file_failure_is_args_error`
 -/
 namespace Props.C17
-open FqModel.Cli Proofs.C17Parse Proofs.C17Loop
+open FqModel.Cli Proofs.C17Parse Proofs.C17Loop Proofs.C17Opts
 
 /-! ## a small table for the non-vacuity examples (entries copied from options.jq) -/
 
@@ -714,5 +726,314 @@ theorem raw_input_old_empty_witness : rawLinesOld [[]] = [[]] ∧ jqRawLines [[]
 
 example : rawLines [S "a\nb", S "c\n"] = [S "a", S "bc"] ∧ rawLines [S "x\n\n"] = [S "x", S ""] ∧ rawLines [] = [] ∧
     rawLines [S "\n"] = [S ""] := by decide
+
+
+/-! ## repeated options, `-o key=value`, the order in which the sources of an option's value override each other -/
+
+/-- a value option on the parser's plain path (`-d NAME`, `-f PATH`): `string`, not array / object / pairs -/
+abbrev PureString (o : Opt) : Prop := o.string = true ∧ o.array = false ∧ o.object = false ∧ o.pairs = false
+
+/-- a complete value-flag token for option `n` (`-d`, the long form, an alias) -/
+def ValueFlag (t : Table) (k : Str) (n : Str) : Prop :=
+  '=' ∉ k ∧ looksLikeFlag k = true ∧ ∃ o, lookup t k = some (n, o) ∧ PureString o
+
+/-- `k v` writes `n := v` and parsing continues -/
+theorem parse_value_flag (t : Table) (k n v : Str) (h : ValueFlag t k n) (rest : List Str) (r : R) :
+    parseArgs t (k :: v :: rest) r = parseArgs t rest { r with parsed := setKey n (fun _ => PV.str v) r.parsed } := by
+  obtain ⟨hk, hflag, o, hl, h1, h2, h3, h4⟩ := h
+  have hdd : k ≠ ['-', '-'] := by
+    intro e; subst e; simp [looksLikeFlag] at hflag
+  rw [parse_fixpoint]
+  simp [step, argOf, idxEq_none_of_not_mem k hk, hdd, hflag, hl, h1, h2, h3, h4, withArg]
+
+/-- repeated_value_flag_later_wins: `-d a … -d b` — the later occurrence of a value option wins (any of its forms) -/
+theorem repeated_value_flag_later_wins (t : Table) (k1 k2 n v1 v2 : Str) (h1 : ValueFlag t k1 n) (h2 : ValueFlag t k2 n)
+    (rest : List Str) (r : R) :
+    parseArgs t (k1 :: v1 :: k2 :: v2 :: rest) r = parseArgs t (k2 :: v2 :: rest) r := by
+  rw [parse_value_flag t k1 n v1 h1, parse_value_flag t k2 n v2 h2, parse_value_flag t k2 n v2 h2]
+  simp only []
+  rw [setKey_overwrite]
+
+/-- value options of different names commute (so "later wins" holds across any block of flags, by transpositions) -/
+theorem value_flags_commute (t : Table) (k1 k2 n1 n2 v1 v2 : Str) (h1 : ValueFlag t k1 n1) (h2 : ValueFlag t k2 n2)
+    (hn : n1 ≠ n2) (rest : List Str) (r : R) :
+    parseArgs t (k1 :: v1 :: k2 :: v2 :: rest) r = parseArgs t (k2 :: v2 :: k1 :: v1 :: rest) r := by
+  rw [parse_value_flag t k1 n1 v1 h1, parse_value_flag t k2 n2 v2 h2, parse_value_flag t k2 n2 v2 h2,
+    parse_value_flag t k1 n1 v1 h1]
+  simp only []
+  rw [setKey_comm n2 n1 (fun e => hn e.symm)]
+
+/-- … and commute with boolean flags -/
+theorem value_flag_bool_flag_commute (t : Table) (k1 k2 n1 n2 v1 : Str) (h1 : ValueFlag t k1 n1) (h2 : BoolFlag t k2 n2)
+    (hn : n1 ≠ n2) (rest : List Str) (r : R) :
+    parseArgs t (k1 :: v1 :: k2 :: rest) r = parseArgs t (k2 :: k1 :: v1 :: rest) r := by
+  rw [parse_value_flag t k1 n1 v1 h1, parse_bool_flag t k2 n2 h2, parse_bool_flag t k2 n2 h2, parse_value_flag t k1 n1 v1 h1]
+  simp only []
+  rw [setKey_comm n2 n1 (fun e => hn e.symm)]
+
+/-- an array option (`-L PATH`) -/
+def ArrayFlag (t : Table) (k : Str) (n : Str) : Prop :=
+  '=' ∉ k ∧ looksLikeFlag k = true ∧ ∃ o, lookup t k = some (n, o) ∧ o.array = true ∧ o.object = false
+
+theorem parse_array_flag (t : Table) (k n v : Str) (h : ArrayFlag t k n) (rest : List Str) (r : R) (xs : List Str)
+    (hold : getKey n r.parsed = none ∧ xs = [] ∨ getKey n r.parsed = some (.arr xs)) :
+    parseArgs t (k :: v :: rest) r = parseArgs t rest { r with parsed := setKey n (fun _ => PV.arr (xs ++ [v])) r.parsed } := by
+  obtain ⟨hk, hflag, o, hl, h1, h2⟩ := h
+  have hdd : k ≠ ['-', '-'] := by
+    intro e; subst e; simp [looksLikeFlag] at hflag
+  rw [parse_fixpoint]
+  rcases hold with ⟨hg, rfl⟩ | hg <;>
+    simp [step, argOf, idxEq_none_of_not_mem k hk, hdd, hflag, hl, h1, h2, withArg, updParsed, hg]
+
+/-- array_flag_accumulates: repeated `-L` options are ALL kept, in command line order (nothing is overwritten) -/
+theorem array_flag_accumulates (t : Table) (k1 k2 n a b : Str) (h1 : ArrayFlag t k1 n) (h2 : ArrayFlag t k2 n)
+    (rest : List Str) (r : R) (hfresh : getKey n r.parsed = none) :
+    parseArgs t (k1 :: a :: k2 :: b :: rest) r =
+      parseArgs t rest { r with parsed := setKey n (fun _ => PV.arr [a, b]) r.parsed } := by
+  rw [parse_array_flag t k1 n a h1 _ _ [] (Or.inl ⟨hfresh, rfl⟩)]
+  rw [parse_array_flag t k2 n b h2 rest _ [a] (Or.inr (by simp [getKey_setKey_const]))]
+  simp only [List.nil_append, List.cons_append]
+  rw [setKey_overwrite]
+
+/-- a NAME VALUE option (the named-argument flags) -/
+def PairsFlag (t : Table) (k : Str) (n : Str) : Prop :=
+  '=' ∉ k ∧ looksLikeFlag k = true ∧ ∃ o, lookup t k = some (n, o) ∧
+    (o.string || o.array || o.object) = false ∧ o.pairs = true
+
+theorem parse_pairs_flag (t : Table) (k n a b : Str) (h : PairsFlag t k n) (rest : List Str) (r : R) (xs : List (Str × Str))
+    (hold : getKey n r.parsed = none ∧ xs = [] ∨ getKey n r.parsed = some (.pairs xs)) :
+    parseArgs t (k :: a :: b :: rest) r =
+      parseArgs t rest { r with parsed := setKey n (fun _ => PV.pairs (xs ++ [(a, b)])) r.parsed } := by
+  obtain ⟨hk, hflag, o, hl, h1, h2⟩ := h
+  have hdd : k ≠ ['-', '-'] := by
+    intro e; subst e; simp [looksLikeFlag] at hflag
+  have h3 : o.object = false := by cases ho : o.object <;> simp_all
+  have h4 : o.array = false := by cases ho : o.array <;> simp_all
+  have h5 : o.string = false := by cases ho : o.string <;> simp_all
+  rw [parse_fixpoint]
+  rcases hold with ⟨hg, rfl⟩ | hg <;>
+    simp [step, argOf, idxEq_none_of_not_mem k hk, hdd, hflag, hl, h2, h3, h4, h5, withArg, updParsed, hg]
+
+/-- pairs_flag_accumulates: repeated named-argument flags of one kind are all kept, in command line order — the
+    parser does not pick a winner (that happens in `from_entries`, see `named_arg_later_wins`) -/
+theorem pairs_flag_accumulates (t : Table) (k1 k2 n a b c d : Str) (h1 : PairsFlag t k1 n) (h2 : PairsFlag t k2 n)
+    (rest : List Str) (r : R) (hfresh : getKey n r.parsed = none) :
+    parseArgs t (k1 :: a :: b :: k2 :: c :: d :: rest) r =
+      parseArgs t rest { r with parsed := setKey n (fun _ => PV.pairs [(a, b), (c, d)]) r.parsed } := by
+  rw [parse_pairs_flag t k1 n a b h1 _ _ [] (Or.inl ⟨hfresh, rfl⟩)]
+  rw [parse_pairs_flag t k2 n c d h2 rest _ [(a, b)] (Or.inr (by simp [getKey_setKey_const]))]
+  simp only [List.nil_append, List.cons_append]
+  rw [setKey_overwrite]
+
+/-- a pairs flag without two following arguments is an argument error (`needs two argument`), see `missing_pair_err` -/
+example : argsParse sampleTable [dd "arg", S "a"] = .error (.needsTwo (dd "arg")) := by decide
+
+/-- the KEY=VALUE option (`-o`) -/
+def ObjFlag (t : Table) (k : Str) (n : Str) : Prop :=
+  '=' ∉ k ∧ looksLikeFlag k = true ∧ ∃ o, lookup t k = some (n, o) ∧ o.object = true
+
+theorem parse_obj_flag (t : Table) (k n kv key val : Str) (h : ObjFlag t k n) (hkv : captureKV kv = some (key, val))
+    (rest : List Str) (r : R) (kvs : List (Str × Str))
+    (hold : getKey n r.parsed = none ∧ kvs = [] ∨ getKey n r.parsed = some (.obj kvs)) :
+    parseArgs t (k :: kv :: rest) r =
+      parseArgs t rest { r with parsed := setKey n (fun _ => PV.obj (setKey key (fun _ => val) kvs)) r.parsed } := by
+  obtain ⟨hk, hflag, o, hl, h1⟩ := h
+  have hdd : k ≠ ['-', '-'] := by
+    intro e; subst e; simp [looksLikeFlag] at hflag
+  rw [parse_fixpoint]
+  rcases hold with ⟨hg, rfl⟩ | hg <;>
+    simp [step, argOf, idxEq_none_of_not_mem k hk, hdd, hflag, hl, h1, withArg, updParsed, hg, hkv, setKey]
+
+/-- option_flag_later_wins: `-o key=v1 -o key=v2` ≡ `-o key=v2` — the later `-o` of one key wins -/
+theorem option_flag_later_wins (t : Table) (k1 k2 n kv1 kv2 key v1 v2 : Str) (h1 : ObjFlag t k1 n) (h2 : ObjFlag t k2 n)
+    (e1 : captureKV kv1 = some (key, v1)) (e2 : captureKV kv2 = some (key, v2)) (rest : List Str) (r : R)
+    (kvs : List (Str × Str)) (hold : getKey n r.parsed = none ∧ kvs = [] ∨ getKey n r.parsed = some (.obj kvs)) :
+    parseArgs t (k1 :: kv1 :: k2 :: kv2 :: rest) r = parseArgs t (k2 :: kv2 :: rest) r := by
+  rw [parse_obj_flag t k1 n kv1 key v1 h1 e1 _ r kvs hold]
+  rw [parse_obj_flag t k2 n kv2 key v2 h2 e2 rest _ (setKey key (fun _ => v1) kvs)
+    (Or.inr (by simp [getKey_setKey_const]))]
+  rw [parse_obj_flag t k2 n kv2 key v2 h2 e2 rest r kvs hold]
+  simp only []
+  rw [setKey_overwrite, setKey_overwrite]
+
+/-- `-o` settings of different keys commute -/
+theorem option_flags_commute (t : Table) (k1 k2 n kv1 kv2 key1 key2 v1 v2 : Str) (h1 : ObjFlag t k1 n) (h2 : ObjFlag t k2 n)
+    (e1 : captureKV kv1 = some (key1, v1)) (e2 : captureKV kv2 = some (key2, v2)) (hne : key1 ≠ key2) (rest : List Str) (r : R)
+    (kvs : List (Str × Str)) (hold : getKey n r.parsed = none ∧ kvs = [] ∨ getKey n r.parsed = some (.obj kvs)) :
+    parseArgs t (k1 :: kv1 :: k2 :: kv2 :: rest) r = parseArgs t (k2 :: kv2 :: k1 :: kv1 :: rest) r := by
+  rw [parse_obj_flag t k1 n kv1 key1 v1 h1 e1 _ r kvs hold]
+  rw [parse_obj_flag t k2 n kv2 key2 v2 h2 e2 rest _ (setKey key1 (fun _ => v1) kvs) (Or.inr (by simp [getKey_setKey_const]))]
+  rw [parse_obj_flag t k2 n kv2 key2 v2 h2 e2 _ r kvs hold]
+  rw [parse_obj_flag t k1 n kv1 key1 v1 h1 e1 rest _ (setKey key2 (fun _ => v2) kvs) (Or.inr (by simp [getKey_setKey_const]))]
+  simp only []
+  rw [setKey_overwrite, setKey_overwrite, setKey_comm key2 key1 (fun e => hne e.symm)]
+
+example : ValueFlag sampleTable (S "-d") (S "decode_group") ∧ ValueFlag sampleTable (dd "decode") (S "decode_group") ∧
+    ArrayFlag sampleTable (S "-L") (S "include_path") ∧ PairsFlag sampleTable (dd "arg") (S "arg") ∧
+    ObjFlag sampleTable (S "-o") (S "option") ∧ captureKV (S "slurp=true") = some (S "slurp", S "true") := by
+  refine ⟨⟨by decide, by decide, mkOpt "decode_group" (some "-d") (some "decode") "s", by decide, by decide⟩,
+    ⟨by decide, by decide, mkOpt "decode_group" (some "-d") (some "decode") "s", by decide, by decide⟩,
+    ⟨by decide, by decide, mkOpt "include_path" (some "-L") (some "include-path") "a", by decide, by decide⟩,
+    ⟨by decide, by decide, mkOpt "arg" none (some "arg") "p", by decide, by decide⟩,
+    ⟨by decide, by decide, mkOpt "option" (some "-o") (some "option") "o", by decide, by decide⟩, by decide⟩
+
+/-- evaluated: later `-d` wins in either form; `-L` accumulates; the named-argument flag accumulates; later `-o` of a key wins -/
+example :
+    argsParse sampleTable [S "-d", S "mp3", dd "decode=png", S "-L", S "a", dd "include-path", S "b", dd "arg", S "x", S "1",
+        dd "arg", S "x", S "2", S "-o", S "slurp=1", dd "option=slurp=0", S "-o", S "depth=3"] =
+      .ok { parsed := [(S "arg", .pairs [(S "x", S "1"), (S "x", S "2")]), (S "decode_group", .str (S "png")),
+                       (S "include_path", .arr [S "a", S "b"]), (S "option", .obj [(S "depth", S "3"), (S "slurp", S "0")])],
+            rest := [] } := by decide
+
+/-! ### the merge of init.jq:188-195 -/
+
+/-- merge_lookup: the value of EVERY option key after
+    `_opt_build_default_fixed + $parsed_args + (-o options) | . + _opt_eval($rest)` is the first that exists of
+    derived value (`_opt_eval`), `-o key=value`, dedicated flag, built-in default — by the position of the operands
+    of `+`, not by the position of the flags on the command line -/
+theorem merge_lookup (dflt pj o over : JObj) (k : Str) :
+    getKey k (objAdd (objAdd (objAdd dflt pj) o) over) =
+      (getKey k over.reverse).or ((getKey k o.reverse).or ((getKey k pj.reverse).or (getKey k dflt))) := by
+  rw [getKey_objAdd, getKey_objAdd, getKey_objAdd]
+
+/-- `-o key=value` beats the dedicated flag wherever the two stand: `-n -o null_input=false` and
+    `-o null_input=false -n` both read the input -/
+theorem option_beats_flag (dflt pj o : JObj) (k : Str) (v : JV) (h : getKey k o.reverse = some v) :
+    getKey k (objAdd (objAdd dflt pj) o) = some v := by
+  rw [getKey_objAdd, h]; rfl
+
+/-- the dedicated flag beats the built-in default; an option nobody sets keeps its default -/
+theorem flag_beats_default (dflt pj o : JObj) (k : Str) (ho : getKey k o.reverse = none) :
+    getKey k (objAdd (objAdd dflt pj) o) = (getKey k pj.reverse).or (getKey k dflt) := by
+  rw [getKey_objAdd, getKey_objAdd, ho]; rfl
+
+/-- the value text `true` means JSON true for a key typed boolean in `_opt_options` and for a key that is not
+    listed there at all ("fuzzy"), i.e. for EVERY boolean flag name of the CLI table, whether its option name is a
+    display option (`compact`) or only an input of `_opt_eval` (`color_output`, `join_output`) -/
+theorem conv_true (ty : Option String) (h : ty = some "boolean" ∨ ty = none) :
+    convOne ty "true".toList = .ok (some (.bool true)) := by
+  rcases h with rfl | rfl <;> rfl
+
+/-- flag_eq_option_partial: for EVERY option name `n` whose type is boolean or unlisted (the driver checks this for every
+    boolean entry of fq's table on the header line) the dedicated flag and `-o n=true` give the same merged options,
+    key by key, except for the key `option` itself (which records the `-o` settings): here for parse results that
+    differ exactly as the two forms make them differ when no other `-o` names `n`.
+    FULL statement (not proved as one theorem): for all `pre`, `post`, `argsParse (pre ++ flag :: post)` and
+    `argsParse (pre ++ -o :: n=true :: post)` merge to objects that agree on every key but `option`, provided no `-o n=…`
+    occurs in `pre`/`post`.  Missing: the simulation through the parser for `post` (the parser lemmas
+    `parse_bool_flag`, `parse_obj_flag`, `option_flags_commute` give each step); validated by the `ometa` cases. -/
+theorem flag_eq_option_partial (dflt : JObj) (ot : OTypes) (n : Str)
+    (hty : getKey n ot = some "boolean" ∨ getKey n ot = none)
+    (pj1 o1 pj2 o2 : JObj)
+    -- command line 1: the dedicated flag, no `-o n=…`
+    (hf1 : getKey n pj1.reverse = some (.bool true)) (ho1 : getKey n o1.reverse = none)
+    -- command line 2: `-o n=true` (the last `-o` for n)
+    (ho2 : getKey n o2.reverse = some (.bool true))
+    -- otherwise the same
+    (hpj : ∀ k, k ≠ n → k ≠ "option".toList → getKey k pj1.reverse = getKey k pj2.reverse)
+    (ho : ∀ k, k ≠ n → getKey k o1.reverse = getKey k o2.reverse)
+    (k : Str) (hk : k ≠ "option".toList) :
+    getKey k (objAdd (objAdd dflt pj1) o1) = getKey k (objAdd (objAdd dflt pj2) o2) ∧
+    cliArgToOptions ot [(n, "true".toList)] = .ok [(n, .bool true)] := by
+  constructor
+  · simp only [getKey_objAdd]
+    by_cases h : k = n
+    · subst h
+      rw [ho1, ho2, hf1]; rfl
+    · rw [ho k h, hpj k h hk]
+  · rcases hty with h | h <;> (unfold cliArgToOptions; rw [h]; rfl)
+
+/-- mistyped_option_dropped: a value that is not of the key's type is DROPPED without a message (options.jq:368
+    `select(.value != null)`): `-o slurp=yes` changes nothing and the exit status stays 0.  Modelled as is. -/
+theorem mistyped_option_dropped (ot : OTypes) (k : Str) (hb : getKey k ot = some "boolean") (tl : List (Str × Str)) :
+    cliArgToOptions ot ((k, "yes".toList) :: tl) = cliArgToOptions ot tl := by
+  have : convOne (some "boolean") "yes".toList = .ok none := rfl
+  simp only [cliArgToOptions, hb, this]
+  cases cliArgToOptions ot tl <;> rfl
+
+example : cliArgToOptions [(S "slurp", "boolean"), (S "depth", "number")]
+    [(S "depth", S "3"), (S "slurp", S "yes"), (S "whatever", S "1")] = .ok [(S "depth", .num 3), (S "whatever", .num 1)] := rfl
+
+/-! ### positional classification -/
+
+/-- from_file_positionals_are_files: with a program file (`-f`, the long form, `-o expr_file=`) EVERY positional is an input
+    file — the first one is not the program -/
+theorem from_file_positionals_are_files (m : JObj) (rest : List Str) (h : (jget m "expr_file").truthy = true) :
+    positionalFiles m rest = rest := by simp [positionalFiles, h]
+
+/-- … without one the first positional is the program and the others are the input files -/
+theorem first_positional_is_program (m : JObj) (p : Str) (files : List Str) (h : (jget m "expr_file").truthy = false) :
+    positionalFiles m (p :: files) = files := by simp [positionalFiles, h]
+
+/-- repl_without_files_is_null_input: the interactive flag with no positional input file forces null input, and never
+    otherwise changes it (derived value null = "keep what flags and -o said") -/
+theorem repl_without_files_is_null_input (m : JObj) (rest : List Str) :
+    replNullInput m rest = (if positionalFiles m rest = [] ∧ (jget m "repl").truthy = true then JV.bool true else JV.null) := by
+  unfold replNullInput
+  cases positionalFiles m rest <;> cases (jget m "repl").truthy <;> simp
+
+example : positionalFiles [(S "expr_file", .str (S "p.jq"))] (A ["a.json", "b.json"]) = A ["a.json", "b.json"] ∧
+    positionalFiles [] (A [".", "a.json", "b.json"]) = A ["a.json", "b.json"] ∧
+    replNullInput [(S "repl", .bool true)] (A ["."]) = .bool true ∧
+    replNullInput [(S "repl", .bool true)] (A [".", "a.json"]) = .null ∧
+    replNullInput [(S "expr_file", .str (S "p.jq")), (S "repl", .bool true)] (A ["a.json"]) = .null := by decide
+
+/-! ### help / version short-circuit, and what comes before it -/
+
+/-- arg_error_before_help: an argument error is status 2 whatever else is on the command line (help and version included),
+    in every world -/
+theorem arg_error_before_help (t : Table) (c : Codes) (dflt : JObj) (ot : OTypes) (w : World) (argv : List Str) (e : Err)
+    (h : argsParse t argv = .error e) : mainModel t c dflt ot w argv = .ok (fatalPred c) := by
+  simp [mainModel, mainDecide, h]
+
+/-- help_short_circuit: once the arguments parse and `_opt_eval` raises no file error, a truthy `show_help` means status 0 with
+    nothing read, nothing run, nothing reported — whatever program, inputs, `--argdecode` paths are named -/
+theorem help_short_circuit (t : Table) (c : Codes) (dflt : JObj) (ot : OTypes) (w : World) (argv : List Str) (r : R) (m : JObj)
+    (h1 : argsParse t argv = .ok r) (h2 : mergeOptions dflt ot w r = .ok (.ok m)) (h3 : (jget m "show_help").truthy = true) :
+    mainModel t c dflt ot w argv = .ok quietPred := by
+  simp [mainModel, mainDecide, h1, h2, h3]
+
+/-- version_short_circuit: the same for `show_version`, which is tested AFTER `show_help` (both given: help) -/
+theorem version_short_circuit (t : Table) (c : Codes) (dflt : JObj) (ot : OTypes) (w : World) (argv : List Str) (r : R) (m : JObj)
+    (h1 : argsParse t argv = .ok r) (h2 : mergeOptions dflt ot w r = .ok (.ok m)) (h3 : (jget m "show_version").truthy = true) :
+    mainModel t c dflt ot w argv = .ok quietPred := by
+  by_cases hh : (jget m "show_help").truthy = true
+  · exact help_short_circuit t c dflt ot w argv r m h1 h2 hh
+  · simp [mainModel, mainDecide, h1, h2, h3, hh]
+
+/-- … but a file error inside `_opt_eval` (program file, raw-file path, bad JSON text, `-o k=@path`) is status 2 even with help -/
+theorem opt_eval_error_before_help (t : Table) (c : Codes) (dflt : JObj) (ot : OTypes) (w : World) (argv : List Str) (r : R)
+    (h1 : argsParse t argv = .ok r) (h2 : mergeOptions dflt ot w r = .ok .fatal) :
+    mainModel t c dflt ot w argv = .ok (fatalPred c) := by
+  simp [mainModel, mainDecide, h1, h2]
+
+/-! ### named arguments -/
+
+/-- named_arg_later_wins: of several bindings of one name the LAST in the list `arg ++ argjson ++ raw_file ++ argdecode` wins -/
+theorem named_arg_later_wins (l : List (Str × Src)) (n : Str) (s : Src) : bindOf (l ++ [(n, s)]) n = some s := by
+  simp [bindOf]
+
+/-- named_arg_kind_precedence: the list is built kind by kind (init.jq:234-237), so between kinds the order is fixed —
+    decode-file over raw-file over JSON over string — wherever the flags stand on the command line -/
+theorem named_arg_kind_precedence (a j r d : List (Str × Src)) (n : Str) :
+    bindOf (a ++ j ++ r ++ d) n = (bindOf d n).or ((bindOf r n).or ((bindOf j n).or (bindOf a n))) := by
+  rw [bindOf_append, bindOf_append, bindOf_append]
+
+example : bindOf ([(S "a", Src.arg (S "1")), (S "a", .arg (S "2"))] ++ [(S "a", .json (S "3"))] ++ [] ++ []) (S "a") = some (.json (S "3")) ∧
+    bindOf [(S "a", Src.arg (S "1")), (S "a", .arg (S "2"))] (S "a") = some (.arg (S "2")) ∧
+    bindOf [(S "a", Src.arg (S "1"))] (S "b") = none := by decide
+
+/-- decode_file_failure_is_args_error: a decode-file path that cannot be opened or decoded is status 2 with one fatal
+    report and NO input processed — whatever the inputs and the program are (it halts before they are looked at) -/
+theorem decode_file_failure_is_args_error (c : Codes) (w : World) (m : JObj) (o : Opts) (fmt : FmtKind) (bl : List (Str × Src))
+    (hf : fmtOf w o = .ok fmt) (hb : bindList m = .ok bl) (hd : argdecodeFails w fmt bl = .ok true) :
+    runModel c w m o = .ok (fatalPred c) := by
+  simp [runModel, hf, hb, hd]
+
+/-- a world where the decode-file path `miss` cannot be opened: status 2 whatever inputs are named -/
+example : runModel fqCodes { toks := [{ name := S "miss", fk := .missing, pc := .unknown, cc := .unknown, jsonOk := false, fmt := .invalid }], stdin := .jobj }
+    [(S "arg", .pairs []), (S "argjson", .pairs []), (S "raw_file", .pairs []), (S "argdecode", .pairs [(S "x", S "miss")])]
+    { exprFile := none, exprArg := some (S "."), filenames := [some (S "a.json")], nullInput := false, slurp := false, stringInput := false,
+      repl := false, showHelp := false, showVersion := false, decodeGroup := S "probe" } = .ok (fatalPred fqCodes) := rfl
 
 end Props.C17
